@@ -3,6 +3,7 @@ package alephium
 import (
 	"context"
 	"encoding/hex"
+	"time"
 
 	sdk "github.com/alephium/go-sdk"
 	"github.com/alephium/wormhole-fork/node/pkg/vaa"
@@ -60,8 +61,19 @@ func (w *Watcher) handleObsvRequest(ctx context.Context, logger *zap.Logger, cli
 				continue
 			}
 
+			now := time.Now().UnixMilli()
 			confirmed := make([]*reobservedEvent, 0)
 			for _, event := range events {
+				// same confirmation time as on the polling path (see isEventConfirmed)
+				duration := getConfirmationDuration(w.isMainnet, event.isTransferToken, event.confirmations)
+				if event.header.Timestamp+duration > now {
+					logger.Info("ignore re-observed event without enough confirmation time",
+						zap.String("txId", txId),
+						zap.String("blockHash", blockHash),
+						zap.Uint8("confirmations", event.confirmations),
+					)
+					continue
+				}
 				if event.header.Height+int32(event.confirmations) <= *currentHeight {
 					logger.Info("re-observed event",
 						zap.String("txId", txId),
@@ -161,6 +173,7 @@ func (w *Watcher) getGovernanceEventsByTxId(
 		reobservedEvents = append(reobservedEvents, &reobservedEvent{
 			&contractEvent,
 			msg.consistencyLevel,
+			msg.IsTransferTokenVAA(),
 			header,
 			txId,
 		})
@@ -170,7 +183,8 @@ func (w *Watcher) getGovernanceEventsByTxId(
 
 type reobservedEvent struct {
 	*sdk.ContractEventByTxId
-	confirmations uint8
-	header        *sdk.BlockHeaderEntry
-	txId          string
+	confirmations   uint8
+	isTransferToken bool
+	header          *sdk.BlockHeaderEntry
+	txId            string
 }
